@@ -1,9 +1,4 @@
 SPECIFICATION Spec
-CONSTANTS
-  Mode = "full"
-  Known = {}
-  NC = 7
 CONSTRAINT HW
-INVARIANT Inv
 POSTCONDITION Accepted
 CHECK_DEADLOCK FALSE
